@@ -130,9 +130,11 @@ class Acc(object):
 def shard_main(pid, tier, seed, i, n):
     t0 = time.time()
     acc = Acc()
+    cov = None
     try:
         if pid.upper() in ('C09', 'C11', 'C12'):
             os.environ['VF_SCHED_IMPORT'] = '1'      # locks lomond creates at import time become scheduler-aware
+        cov = _start_line_monitor(os.path.join(os.path.realpath(os.environ.get('LOMOND_SRC', '/repo')), 'lomond'))
         from . import env  # noqa  (imports lomond from the tree under test)
         from . import simnet
         simnet.check_patch_points()
@@ -161,9 +163,68 @@ def shard_main(pid, tier, seed, i, n):
         acc.inconclusive.append('shard %d/%d crashed: %s' % (i, n, ''.join(
             traceback.format_exception(type(e), e, e.__traceback__))[-1500:]))
     out = acc.to_json()
+    try:
+        out['lines'] = _stop_line_monitor(cov)
+    except Exception:   # noqa
+        out['lines'] = {}
     out['wall'] = time.time() - t0
     sys.stdout.write('\n' + MARK + json.dumps(out) + '\n')
     sys.stdout.flush()
+
+
+def _start_line_monitor(prefix):
+    """record which lomond source lines the workload executes (sys.monitoring, each line reported once)"""
+    mon = getattr(sys, 'monitoring', None)
+    if mon is None:
+        return None
+    seen = {}
+    tool = mon.COVERAGE_ID
+    try:
+        mon.use_tool_id(tool, 'vf-lines')
+    except ValueError:
+        return None
+
+    def on_line(code, lineno):
+        fn = code.co_filename
+        if fn.startswith(prefix):
+            seen.setdefault(fn[len(prefix) + 1:], set()).add(lineno)
+        return mon.DISABLE
+
+    mon.register_callback(tool, mon.events.LINE, on_line)
+    mon.set_events(tool, mon.events.LINE)
+    return (mon, tool, seen)
+
+
+def _stop_line_monitor(cov):
+    if cov is None:
+        return {}
+    mon, tool, seen = cov
+    mon.set_events(tool, 0)
+    mon.free_tool_id(tool)
+    return {k: sorted(v) for k, v in seen.items()}
+
+
+def _executable_lines(lomond_dir):
+    out = {}
+    for fn in sorted(os.listdir(lomond_dir)):
+        if not fn.endswith('.py'):
+            continue
+        try:
+            code = compile(open(os.path.join(lomond_dir, fn)).read(), fn, 'exec')
+        except Exception:   # noqa
+            continue
+        lines = set()
+        todo = [code]
+        while todo:
+            c = todo.pop()
+            for _a, _b, ln in c.co_lines():
+                if ln is not None:
+                    lines.add(ln)
+            for k in c.co_consts:
+                if hasattr(k, 'co_lines'):
+                    todo.append(k)
+        out[fn] = lines
+    return out
 
 
 # ---------------------------------------------------------------- parent
@@ -198,6 +259,7 @@ def parent_main(pid, tier, seed):
     vio_count = {}
     walls = []
     exhaustive_done = {}
+    lines_hit = {}
     for i, p in enumerate(procs):
         try:
             so, se = p.communicate(timeout=max(5.0, timeout - (time.time() - t0)))
@@ -227,6 +289,8 @@ def parent_main(pid, tier, seed):
         merged.inconclusive.extend(r['inconclusive'])
         for kx, v in r.get('exhaustive_done', {}).items():
             exhaustive_done.setdefault(kx, []).append(v)
+        for fn, got_lines in r.get('lines', {}).items():
+            lines_hit.setdefault(fn, set()).update(got_lines)
         walls.append(r['wall'])
 
     # known findings ------------------------------------------------------
@@ -290,6 +354,20 @@ def parent_main(pid, tier, seed):
         verdict={0: 'held on everything explored' + (' apart from the listed known finding(s)' if known_seen else ''),
                  1: 'violated', 2: 'inconclusive'}[rc],
     )
+    try:
+        src = os.path.join(os.path.realpath(os.environ.get('LOMOND_SRC', '/repo')), 'lomond')
+        exe = _executable_lines(src)
+        per = {}
+        tot_hit = tot = 0
+        for fn, exe_lines in exe.items():
+            hit = len(exe_lines & lines_hit.get(fn, set()))
+            per[fn] = '%d/%d' % (hit, len(exe_lines))
+            tot_hit += hit
+            tot += len(exe_lines)
+        cov['lomond_lines_executed'] = dict(total='%d/%d' % (tot_hit, tot), per_file=per,
+                                            note='source lines of the tree under test executed by this run, import included (sys.monitoring)')
+    except Exception as e:   # noqa
+        cov['lomond_lines_executed'] = dict(error=repr(e))
     if exhaustive and all(exhaustive.values()) and meta.get('EXHAUSTIVE_WHOLE'):
         cov['exhaustive'] = True
     ev = dict(property_id=pid, tier=tier, seed=seed, level=meta.get('LEVEL', 'exploration'),
